@@ -213,6 +213,10 @@ class Stats:
         self.depths[min(G.depth(ast), 16)] += 1
         for k in G.constructs(ast):
             self.c['construct:' + k] += 1
+        if ast.meta and ast.meta.get('twins'):
+            self.c['docs_with_textual_twins'] += 1
+        if ast.skip:
+            self.c['docs_with_user_verbatim_names'] += 1
 
     def merge(self, other):
         self.c.update(other.c)
@@ -251,7 +255,7 @@ def eval_docs(job):
     tols = job.get('tols', (0,))
     with_model = job.get('model', True)
     st = Stats()
-    out = {'n': 0, 'corr_cases': 0, 'corr_fail': [], 'orc_fail': [], 'hashes': set(), 'sample': None,
+    out = {'n': 0, 'n_orc': 0, 'corr_cases': 0, 'corr_fail': [], 'orc_fail': [], 'hashes': set(), 'sample': None,
            'stats': st}
     docs = []
     for i in range(job['n']):
@@ -278,6 +282,7 @@ def eval_docs(job):
         if nontrivial:
             out['hashes'].add(hash(src))
         if oracle_fn is not None:
+            out['n_orc'] += 1
             for key, what, info in (oracle_fn(src, ast, extra, parsed0) or ()):
                 if len(out['orc_fail']) < 40:
                     d = {'key': key, 'what': what, 'input': src, 'skip': list(skip)}
@@ -314,9 +319,23 @@ def merge_jobs(results, r_corr, r_orc):
             if o['sample']:
                 r_corr.sample(o['sample'])
         if r_orc is not None:
-            r_orc.evaluations += o['n']
-            r_orc.nontrivial |= o['hashes']
+            r_orc.evaluations += o['n_orc']
+            if o['n_orc']:
+                r_orc.nontrivial |= o['hashes']
             r_orc.failures += o['orc_fail']
             if o['sample']:
                 r_orc.sample(dict(o['sample'], verdict='holds'))
+    for r in (r_corr, r_orc):
+        if r is not None:
+            # the smallest failing input first (it is the one the driver reports)
+            r.failures.sort(key=lambda f: (len(f.get('input') or ''), f.get('input') or ''))
     return st
+
+
+_SHRUNK = [0]
+
+
+def may_shrink(limit=3):
+    """Shrinking is expensive: each worker process shrinks only its first few failures."""
+    _SHRUNK[0] += 1
+    return _SHRUNK[0] <= limit
